@@ -1805,6 +1805,14 @@ func ruleProvKey(c *Ctx, r *Rep) {
 			if len(cfgO) != 1 {
 				continue
 			}
+			// the configuration handed to the signing step is the one the body was built from (the subject's own
+			// signature algorithm, not the issuer's or a default)
+			for _, sci := range callsIn(fn) {
+				if sf := sci.Common().StaticCallee(); sf != nil && sf == c.Func("generator", "SignCertBody") && len(sci.Common().Args) >= 2 {
+					so := pv.Origins(sci.Common().Args[1])
+					r.Check(len(so) == 1 && so[0] == cfgO[0], "driver-signs-with-same-config|"+fk, c.Pos(sci.Pos()), "the signing step receives the configuration the body was built from: "+cfgO[0], strings.Join(head(so, 3), " , "))
+				}
+			}
 			own := strings.Replace(cfgO[0], "GetConfig(", "GetBuildArtifact(", 1)
 			for i, part := range []string{"PrivateKey", "Request"} {
 				o := pv.Origins(ci.Common().Args[i+1])
